@@ -87,6 +87,7 @@ static P_CALL_AFTER_FAILED_RELOAD: AtomicU64 = AtomicU64::new(0);
 static P_SKIPPED: AtomicU64 = AtomicU64::new(0);
 static P_EXECUTED: AtomicU64 = AtomicU64::new(0);
 static P_CHECKS: AtomicU64 = AtomicU64::new(0);
+static P_PAGES_UNOBSERVABLE: AtomicU64 = AtomicU64::new(0);
 static FAILED_RELOADS: AtomicU64 = AtomicU64::new(0);
 
 fn host(tag: &'static str, v: u64) {
@@ -164,6 +165,7 @@ fn mk_runtime_base(rid: u64) -> Runtime<NoCtx> {
     let ko: Option<Val<T24>> = Some(Val(T24::new(300 + rid)));
     let ks: Option<RotoString> = Some(RotoString::from(format!("ks{rid}")));
     let kl: roto::List<u64> = roto::List::from(vec![rid, rid + 1]);
+    let zg = tracked::ZGuard::new();
     Runtime::from_lib(library! {
         #[clone] type Tr = Val<T24>;
         #[clone] type Zt = Val<Zst>;
@@ -214,6 +216,12 @@ fn mk_runtime_base(rid: u64) -> Runtime<NoCtx> {
             };
             host("cap", p);
             p
+        };
+        // a closure whose captured state is zero-sized but has a destructor
+        let zcap = move || -> u64 {
+            let _g: &tracked::ZGuard = &zg;
+            host("zcap", 4);
+            4
         };
     })
     .expect("runtime")
@@ -329,7 +337,7 @@ fn f(x: u64) -> u64 {{
     if IpAddr.LOCALHOSTV4 == 127.0.0.1 {{ acc = acc + 1; }}
     // (the string constants hold this version's text)
     if {s} == "v{k}" && rc.s == "r{k}" {{ acc = acc + 1; }}
-    acc + cap2() + cap3() + usez_{k}() - 1
+    acc + cap2() + cap3() + zcap() + usez_{k}() - 1
 }}
 const ZC: Zt = mkz();
 fn usez_{k}() -> u64 {{
@@ -444,7 +452,12 @@ fn check_not_before(site: &str) {
         }
         *alive_by_version.entry(x.k).or_insert(0) += 1;
         let (pl, pf) = alloc::module_pages(m as u32);
-        if pl == 0 || pf > 0 {
+        if pl == 0 && pf == 0 {
+            // The allocator seam saw no page-aligned block for this compilation: the machine code does not
+            // come from the global allocator (another memory provider, a shared or cached module). Its
+            // liveness is then not observable here; calls and the crash reporter still are.
+            P_PAGES_UNOBSERVABLE.fetch_add(1, SeqCst);
+        } else if pl == 0 || pf > 0 {
             viol::record(
                 "released-too-early",
                 format!("at {site}: module m{m} still has a holder (package alive: {}, live handles: {}) but its machine-code pages are not all alive: {pl} live, {pf} freed", x.pkg, x.handles),
@@ -479,6 +492,14 @@ fn check_not_before(site: &str) {
             );
             return;
         }
+    }
+    let rts_alive = model.rt_clones.keys().filter(|rid| model.rt_alive(**rid)).count() as i64;
+    if tracked::zguard_live() < rts_alive {
+        viol::record(
+            "released-too-early",
+            format!("at {site}: {rts_alive} runtime(s) still have a clone or a module compiled from them alive, but only {} of the zero-sized guards captured by their registered closure zcap are", tracked::zguard_live()),
+        );
+        return;
     }
     for (&rid, _) in &model.rt_clones {
         if model.rt_alive(rid) {
@@ -843,11 +864,12 @@ fn exec_inner(op: &LifeOp) -> bool {
                     };
                     let log = take_hostlog();
                     let many: u64 = (0..many_constants(k)).filter(|i| i % 10 != 9).map(|i| i + k).sum();
-                    let want = x.wrapping_mul(k) + 2 * c + (200 + rid) + (100 + rid) + 2 + 1 + (c + 2) + k + (c + 3) + (300 + rid) + 2 + extras.iter().sum::<u64>() + many + (600 + rid) + (700 + rid) + (k + x) + 3 + x + 5 + (x + 1 + 7) + (x + 2 + 9) + 150 + (11 + rid) + 55 + 1 + 1;
+                    let want = x.wrapping_mul(k) + 2 * c + (200 + rid) + (100 + rid) + 2 + 1 + (c + 2) + k + (c + 3) + (300 + rid) + 2 + extras.iter().sum::<u64>() + many + (600 + rid) + (700 + rid) + (k + x) + 3 + x + 5 + (x + 1 + 7) + (x + 2 + 9) + 150 + (11 + rid) + 55 + 1 + 1 + 4;
                     let mut want_log: Vec<(&str, u64)> = vec![("log", *x), ("val", c), ("val", c), ("val", 200 + rid), ("cap", 100 + rid), ("val", c + 2), ("val", c + 3), ("val", 300 + rid)];
                     want_log.extend(extras.iter().map(|p| if *p >= 6000 { ("cap", *p) } else { ("val", *p) }));
                     want_log.push(("cap", 600 + rid));
                     want_log.push(("cap", 700 + rid));
+                    want_log.push(("zcap", 4));
                     if got != want || log != want_log {
                         viol::record(
                             "wrong-result",
@@ -1150,7 +1172,18 @@ pub fn generate_owner_race(run_seed: u64) -> LifeDesc {
         let n = 1 + r.below(2) as usize;
         threads.push((0..n).map(|_| pick(&mut r, t)).collect::<Vec<_>>());
     }
-    let fine = Some((0usize, 0usize, 1 + r.below(1400)));
+    // Where two owners race, the window is at the start of a drop (before the reference count is
+    // decremented): half of the runs sweep the first 120 instructions, a quarter the first 1400,
+    // a quarter anything up to 8191 (the teardown of the module against the other thread).
+    let k = match r.below(4) {
+        0 | 1 => 1 + r.below(120),
+        2 => 1 + r.below(1400),
+        _ => {
+            let bits = r.below(13);
+            (1u64 << bits) + r.below(1u64 << bits)
+        }
+    };
+    let fine = Some((0usize, 0usize, k));
     unwind_some(run_seed, &mut setup, &mut threads);
     LifeDesc {
         property: "C11".into(),
@@ -1271,7 +1304,7 @@ pub fn generate(run_seed: u64, thorough: bool) -> LifeDesc {
         }
     }
     let mut sr = Rng::new(rng::derive(run_seed, &[rng::label("strategy")]));
-    let strategy = crate::scen_list::pick_strategy(&mut sr, 4000);
+    let strategy = crate::scen_list::pick_strategy_compiling(&mut sr, 4000);
     // one run in three: one clone/drop/call operation gets an instruction-level preemption
     let mut fr = Rng::new(rng::derive(run_seed, &[rng::label("fine")]));
     let mut fine = None;
@@ -1319,7 +1352,7 @@ pub fn execute(d: &LifeDesc, keep_trace: bool) -> RunResult {
     COMPILES.lock().unwrap().clear();
     KEPT_STR.lock().unwrap().clear();
     KEPT_OBJ.lock().unwrap().clear();
-    for a in [&P_COMPILE_OVERLAP, &P_DROP_DURING_CALL, &P_LAST_HOLDER_FOREIGN, &P_UNWIND_DROPS, &P_UNWIND_LAST, &P_CALL_AFTER_PKG_AND_RT_GONE, &P_CALL_AFTER_FAILED_RELOAD, &P_SKIPPED, &P_EXECUTED, &P_CHECKS, &FAILED_RELOADS] {
+    for a in [&P_COMPILE_OVERLAP, &P_DROP_DURING_CALL, &P_LAST_HOLDER_FOREIGN, &P_UNWIND_DROPS, &P_UNWIND_LAST, &P_CALL_AFTER_PKG_AND_RT_GONE, &P_CALL_AFTER_FAILED_RELOAD, &P_SKIPPED, &P_EXECUTED, &P_CHECKS, &P_PAGES_UNOBSERVABLE, &FAILED_RELOADS] {
         a.store(0, SeqCst);
     }
     IN_CALL.store(0, SeqCst);
@@ -1456,10 +1489,13 @@ pub fn execute(d: &LifeDesc, keep_trace: bool) -> RunResult {
         if tracked::zst_live() != 0 {
             viol::record("leak", format!("zero-sized script constants: live count {} after every owner was dropped", tracked::zst_live()));
         }
+        if tracked::zguard_live() != 0 {
+            viol::record("leak", format!("zero-sized state captured by registered closures: live count {} after every owner was dropped", tracked::zguard_live()));
+        }
         let mods: Vec<u64> = with_model(|m| m.mods.keys().copied().collect());
         for m in mods {
             let (pl, pf) = alloc::module_pages(m as u32);
-            if pl != 0 || pf == 0 {
+            if pl != 0 {
                 viol::record("pages-not-released", format!("machine code of module m{m}: {pl} page block(s) still allocated, {pf} freed, after its last holder was dropped"));
                 break;
             }
@@ -1506,6 +1542,7 @@ pub fn execute(d: &LifeDesc, keep_trace: bool) -> RunResult {
     }
     c.insert("ops_skipped_slot_empty".into(), P_SKIPPED.load(SeqCst));
     c.insert("not_before_checks".into(), P_CHECKS.load(SeqCst));
+    c.insert("not_before_checks_module_pages_unobservable".into(), P_PAGES_UNOBSERVABLE.load(SeqCst));
     c.insert("probe_compile_overlapped_another_compile".into(), P_COMPILE_OVERLAP.load(SeqCst));
     c.insert("probe_drop_while_other_thread_mid_call".into(), P_DROP_DURING_CALL.load(SeqCst));
     c.insert("probe_last_holder_dropped_on_foreign_thread".into(), P_LAST_HOLDER_FOREIGN.load(SeqCst));
